@@ -355,6 +355,10 @@ impl Model {
             }
             Stmt::DropTable { name } => {
                 let Some(ti) = self.find_table(tx, name) else { return Expect::Fail("unknown table") };
+                // somebody else is dropping the table (or dropped it after we began): write-write conflict
+                if self.tables[ti].droppers.iter().any(|d| *d != tx && self.concurrent(tx, *d)) {
+                    return Expect::Fail("write conflict");
+                }
                 if apply {
                     self.tables[ti].droppers.push(tx);
                     self.txs[tx].writes += 1;
@@ -582,21 +586,19 @@ impl Model {
                     }
                 }
                 let n = hit.len() as u64;
+                if !conflicts.is_empty() {
+                    // a row that a concurrent transaction (still open, or committed after we began) is
+                    // deleting as well: the engine refuses the statement with a write-write conflict
+                    // (no-wait, first deleter wins); the transaction that was refused has to roll back
+                    return Expect::Fail("write conflict");
+                }
                 if apply {
                     for ri in hit {
                         self.tables[ti].rows[ri].deleters.push(tx);
                     }
-                    for w in conflicts {
-                        if !self.txs[tx].conflicts.contains(&w) {
-                            self.txs[tx].conflicts.push(w);
-                            self.txs[w].conflicts.push(tx);
-                        }
-                    }
                     if n > 0 {
                         self.txs[tx].writes += 1;
                     }
-                } else if !conflicts.is_empty() {
-                    self.hazards.push(format!("delete from {table} touches a row written by a concurrent transaction"));
                 }
                 Expect::Count(n)
             }
